@@ -2,6 +2,7 @@ pub mod common;
 pub mod c01;
 pub mod c04;
 pub mod c05;
+pub mod c06;
 pub mod c07;
 pub mod c17;
 pub mod c08;
@@ -14,6 +15,7 @@ pub fn dispatch(cfg: &Config) -> i32 {
         "C01" => c01::run(cfg),
         "C04" => c04::run(cfg),
         "C05" => c05::run(cfg),
+        "C06" => c06::run(cfg),
         "C07" => c07::run(cfg),
         "C17" => c17::run(cfg),
         "C08" => c08::run(cfg),
